@@ -218,6 +218,14 @@ def monitors(cfg, ops, out, rc, consts, which):
                         bad.append(("backoff", "bookkeeping", "device %d: after an attempt last_retry=%d retry=%d (before %d), now %d" % (i, d["lastretry"], d["retry"], pr, p.now)))
                     if nconn == 0 and not p.enq_since and (d["retry"] != pr or d["lastretry"] != pl):
                         bad.append(("backoff", "bookkeeping", "device %d: retry fields moved without an attempt" % i))
+        if "live" in which:           # C10_callbacks_live: telemetry / diagnostics only for a client that is completed later in the pass or still queued
+            queued_after = set(a["client"] for d in p.devs for a in d["acts"])
+            for k, l in enumerate(p.evs):
+                if l.startswith("EV TELE ") or l.startswith("EV DIAG "):
+                    c = int(l.split()[2])
+                    later = any(x.startswith("EV DONE %d " % c) for x in p.evs[k + 1:])
+                    if not later and c not in queued_after:
+                        bad.append(("callbacks-live", "after-completion", "%s for client %d although its action is neither completed later in this pass nor queued any more: %s" % (l.split()[1], c, p.evs[max(0, k - 3):k + 2])))
         if "timer" in which and p.tmo is not None and p.tmo <= 0:
             bad.append(("timer", "zero-timeout", "requested time-out %d" % p.tmo))
         prev = p
@@ -293,7 +301,7 @@ def setup(ctx, V):
     return consts, C08.build_dev(ctx), C01.build_enq(ctx), C08.build_model(ctx)
 
 
-ALL = ("fd", "login", "timer", "fifo", "timeout", "backoff", "count")
+ALL = ("fd", "login", "timer", "fifo", "timeout", "backoff", "count", "live")
 
 
 def load_corpus(pid):
